@@ -13,3 +13,6 @@ package enum
 //@ func FastMathFlagFromString
 //@   props C04 C05 C18
 //@   pure
+//@ func OverflowFlagFromString
+//@   props C04 C05 C18
+//@   pure
